@@ -8,6 +8,7 @@ from vpm.core import Prop, ExhaustiveProp
 from vpm.labels import enc, dec
 
 PROPERTY_ID = "C05"
+FUZZ = {"props": ["astar", "bfs"], "quick": [2, 800], "thorough": [8, 30000]}
 RULE = ("Directed multigraphs (1-9 nodes, integer edge costs 0..5 incl. zero-cost edges, self-loops, parallel edges, "
         "dead ends, 0-3 goals possibly unreachable) x representation of the single-outcome transition / initial "
         "distribution (next_state, DeterministicDistribution, 1-entry DictDistribution, 1-element "
